@@ -87,6 +87,7 @@ type TVal struct {
 	List   []*TVal
 	Keys   []*TVal
 	Vals   []*TVal
+	Zero   bool // written as an unset field's zero value: nested unset-field expansion does not apply
 }
 
 type TFieldVal struct {
@@ -95,6 +96,7 @@ type TFieldVal struct {
 	// Unknown member (no descriptor): rendered with UnknownJSON, skipped on the wire.
 	UnknownKey  string
 	UnknownJSON string
+	UnknownRaw  []byte // Thrift side: a complete encoded field (header + value) the schema does not know
 }
 
 func typeName(t *TType) string {
@@ -146,6 +148,9 @@ type tgenOpts struct {
 	NoBinary      bool
 	StructMapKeys bool
 	DoubleKeys    bool
+	// OptionalDefaults lets optional fields carry IDL defaults too (rarely enabled: together with
+	// SetOptionalBitmap+UseDefaultValue it is the precondition of a known native/Go divergence).
+	OptionalDefaults bool
 }
 
 type tgen struct {
@@ -237,6 +242,9 @@ func (g *tgen) newStruct(depth int) *TStruct {
 		} else if g.t.Chance(1, 4, "field.gap") {
 			id = nextID + g.t.Intn(5, "field.gap.n")
 		}
+		if id > 32767 {
+			id = 1
+		}
 		for used[id] {
 			id++
 			if id > 32767 {
@@ -267,7 +275,7 @@ func (g *tgen) newStruct(depth int) *TStruct {
 			f.JSConv = true
 			f.Anno = ` (api.js_conv = "true")`
 		}
-		if g.o.Defaults && f.Req != reqRequired && g.t.Chance(1, 3, "field.default") {
+		if g.o.Defaults && (f.Req == reqDefault || (f.Req == reqOptional && g.o.OptionalDefaults)) && g.t.Chance(1, 3, "field.default") {
 			f.Default = g.defaultFor(f.T)
 		}
 		st.Fields = append(st.Fields, f)
@@ -367,6 +375,12 @@ type vgenOpts struct {
 	Shuffle    bool // members in random document order
 	AllowNaN   bool
 	StrClass   int // 0 mixed, 1 plain ascii
+	// DropRequiredPct: probability that a required field is left out (negative documents for C16).
+	DropRequiredPct int
+	DroppedRequired int
+	// NoNullOptional: never render an optional member as null (what "null" means for a tracked
+	// optional field is not stated by the properties, so it is not generated where it would matter).
+	NoNullOptional bool
 }
 
 type vgen struct {
@@ -548,11 +562,18 @@ func (g *vgen) structVal(v *TVal, depth int) {
 	for _, i := range idx {
 		f := st.Fields[i]
 		present := f.Req == reqRequired || g.t.Chance(g.o.PresentPct, 100, "field.present")
+		if f.Req == reqRequired && g.o.DropRequiredPct > 0 && g.t.Chance(g.o.DropRequiredPct, 100, "field.dropreq") {
+			present = false
+			g.o.DroppedRequired++
+		}
 		if f.T.Kind == tSTRUCT && depth <= 0 && f.Req != reqRequired {
 			present = false // required struct chains are acyclic (self-typed fields are never required), so this terminates
 		}
 		if present {
-			if f.Req != reqRequired && g.t.Chance(g.o.NullPct, 100, "field.null") {
+			if f.Req == reqRequired && g.o.DropRequiredPct > 0 && g.o.NullPct > 0 && g.t.Chance(g.o.DropRequiredPct, 200, "field.nullreq") {
+				v.Fields = append(v.Fields, TFieldVal{F: f, V: nil}) // a null required member counts as absent
+				g.o.DroppedRequired++
+			} else if f.Req != reqRequired && !(g.o.NoNullOptional && f.Req == reqOptional) && g.t.Chance(g.o.NullPct, 100, "field.null") {
 				v.Fields = append(v.Fields, TFieldVal{F: f, V: nil})
 			} else {
 				v.Fields = append(v.Fields, TFieldVal{F: f, V: g.value(f.T, depth-1)})
@@ -590,7 +611,11 @@ func encodeThrift(b []byte, v *TVal) []byte {
 		return append(b, v.S...)
 	case tSTRUCT:
 		for _, fv := range v.Fields {
-			if fv.F == nil || fv.V == nil {
+			if fv.F == nil {
+				b = append(b, fv.UnknownRaw...)
+				continue
+			}
+			if fv.V == nil {
 				continue
 			}
 			b = append(b, fv.F.T.Kind, byte(fv.F.ID>>8), byte(fv.F.ID))
